@@ -29,7 +29,7 @@ TIERS = {
     "thorough": {"shards": 16, "budget_s": 540},
 }
 MIN_EVENTS = {"quick": 800, "thorough": 1000}
-DECIDING = {"frame", "linear-equals-first-order"}
+DECIDING = {"frame", "variants", "linear-equals-first-order"}
 RULE = (
     "families N (nonlinear, steady state known by construction, log-variables), L (linear, for the first-order comparison), "
     "G (balanced growth) and S (backward-looking, for period_by_period); shocks sized 0.1-3 std at 0-3 unanticipated and 0-3 "
@@ -280,7 +280,10 @@ def make_case(rng):
     init = {q["name"]: [float(np.round(rng.normal(0, scale), 5)) for _ in range(4)] for q in spec["tvars"]}
     rr = M.render_source(spec, None, 0)
     return {"kind": "nonlinear-sim", "family": family, "method": method, "spec": spec, "steady": steady, "meta": meta, "source": rr["source"],
-            "T": T, "unant": unant, "ant": ant, "opts": opts, "init": init, "terminal_data_from_first_order": bool(rng.random() < 0.5)}
+            "T": T, "unant": unant, "ant": ant, "opts": opts, "init": init, "terminal_data_from_first_order": bool(rng.random() < 0.5),
+            "hist": int(rng.integers(0, 2 ** 31)) if rng.random() < 0.3 else None,
+            "unant2": ([[shocks[int(rng.integers(0, len(shocks)))], int(rng.integers(0, T)), float(np.round(rng.normal(0, scale) * rng.uniform(0.1, 3), 5))]
+                        for _ in range(int(rng.integers(1, 4)))] if (method == "stacked_time" and rng.random() < 0.3) else None)}
 
 
 def run_case(c, case):
@@ -322,6 +325,11 @@ def run_case(c, case):
         if not _linre.square_solution_consistent(m.get_solution().T, m.get_eigenvalues()):
             c.inconc("model-determinate-by-count-only(rank condition fails)")
             return
+        if case.get("hist") is not None:
+            # history of the model object: query operations before the monitored simulation on the same solved model
+            from ..workloads import history as Hist
+            for op in Hist.perturb(m, case["hist"], spec, freq="qq"):
+                c.note("history:" + op)
         T = case["T"]
         start = ir.qq(2020, 1)
         end = start + (T - 1)
@@ -356,14 +364,87 @@ def run_case(c, case):
                     ser[ext] = np.asarray(fo[q["name"]].get_data(tuple(ext)), dtype=float)
                     db[q["name"]] = ser
         _REG[id(m._invariant)] = {"spec": spec, "case": case, "family": family}
+        res0 = None
         try:
             with rt.quiet(), np.errstate(all="ignore"):
-                m.simulate(db, span, method=case["method"], return_info=True, remove_terminal=False, when_fails="silent", **opts)
+                res0 = m.simulate(db, span, method=case["method"], return_info=True, remove_terminal=False, when_fails="silent", **opts)
         except Exception as exc:
             c.inconc(f"simulate:raised:{type(exc).__name__}")
             c.note(f"simulate:raised:{type(exc).__name__}:{str(exc)[:60]}")
         finally:
             _REG.pop(id(m._invariant), None)
+        # ---- several data variants in one call: every variant is the simulation of its own data
+        if case.get("unant2") is not None and res0 is not None and case["method"] == "stacked_time":
+            _two_variant_law(c, m, case, db, span, opts, res0)
+
+
+def _two_variant_law(c, m, case, db0, span, opts, res0):
+    """simulate(num_variants=2) on a databox whose second data variant carries unanticipated shocks on OTHER dates: each
+    variant's paths must equal the single-variant simulation of that variant's data (both single runs go through the
+    monitored, equation-checked route). Added after a seeded change reused the frames of variant 0 for every variant."""
+    import irispie as ir
+    spec = case["spec"]
+    start = tuple(span)[0]
+    db1 = db0.copy()
+    for q in spec["tshocks"]:
+        ser = db1[q["name"]].copy()
+        ser[span] = 0.0
+        db1[q["name"]] = ser
+    for name, t, val in case["unant2"]:
+        db1[name][start + t] = val
+    _REG[id(m._invariant)] = {"spec": spec, "case": dict(case, unant=case["unant2"], unant2=None), "family": case["family"]}
+    try:
+        with rt.quiet(), np.errstate(all="ignore"):
+            res1 = m.simulate(db1, span, method="stacked_time", return_info=True, remove_terminal=False, when_fails="silent", **opts)
+    except Exception as exc:
+        c.inconc(f"two-variants:single-run-raised:{type(exc).__name__}")
+        return
+    finally:
+        _REG.pop(id(m._invariant), None)
+    ok = lambda r: all(getattr(st, "is_success", True) for st in r[1].get("exit_status", ()))
+    if not ok(res0) or not ok(res1):
+        c.inconc("two-variants:a-single-run-reported-failure")
+        return
+    both = ir.Databox()
+    try:
+        for k in db0.keys():
+            a, b = db0[k], db1[k]
+            if isinstance(a, ir.Series):
+                if a.start != b.start or a.data.shape[0] != b.data.shape[0]:
+                    c.inconc("two-variants:inputs-not-aligned")
+                    return
+                both[k] = ir.Series(start=a.start, values=np.column_stack([np.asarray(a.data, dtype=float)[:, 0], np.asarray(b.data, dtype=float)[:, 0]]))
+            else:
+                both[k] = a
+        with rt.quiet(), np.errstate(all="ignore"):
+            res2 = m.simulate(both, span, method="stacked_time", num_variants=2, return_info=True, remove_terminal=False, when_fails="silent", **opts)
+    except Exception as exc:
+        c.inconc(f"two-variants:joint-run-raised:{type(exc).__name__}")
+        c.note(f"two-variants:joint-run-raised:{type(exc).__name__}:{str(exc)[:80]}")
+        return
+    out2, info2 = res2
+    infos = info2 if isinstance(info2, (list, tuple)) else [info2]
+    if not all(getattr(st, "is_success", True) for i_ in infos for st in (i_ or {}).get("exit_status", ())):
+        c.inconc("two-variants:joint-run-reported-failure")
+        return
+    sp = tuple(span)
+    same_dates = sorted(t for _, t, _ in case["unant"]) == sorted(t for _, t, _ in case["unant2"])
+    for v, single in enumerate((res0[0], res1[0])):
+        for q in spec["tvars"]:
+            a = np.asarray(out2[q["name"]].get_data(sp), dtype=float)
+            if a.ndim != 2 or a.shape[1] < 2:
+                c.violation("two-variants:output-has-one-variant", f"{q['name']}: simulate(num_variants=2) returned data of shape {a.shape}", case=case)
+                return
+            b = np.asarray(single[q["name"]].get_data(sp), dtype=float)[:, 0]
+            c.event("variants", "joint-run==single-runs", key=("variants", case["family"], v, same_dates, len(case["unant2"])), nontrivial=not same_dates)
+            if not np.all(np.isfinite(b)):
+                c.inconc("two-variants:single-run-not-finite")
+                return
+            err = np.max(np.abs(a[:, v] - b))
+            if not np.isfinite(err) or err > 1e-6 * (1 + np.max(np.abs(b))):
+                c.violation("two-variants:variant-differs-from-its-own-single-variant-simulation",
+                            f"{q['name']}, data variant {v}: max discrepancy {err:.3e} between simulate(num_variants=2) and the simulation of that variant alone", case=case)
+                return
 
 
 def replay(c, case):
